@@ -6,7 +6,7 @@ LEAN_MODULES = ["MpirProofs.Props.C17"]
 THEOREMS = ["Mpir.Io.out_raw_format", "Mpir.Io.raw_roundtrip", "Mpir.Io.inp_raw_total",
             "Mpir.Io.export_count", "Mpir.Io.export_nails_zero", "Mpir.Io.import_spec", "Mpir.Io.export_import_id",
             "Mpir.Io.exportSpec_importSpec",
-            "Mpir.Io.out_fault_returns_0", "Mpir.Io.out_healthy_counts", "Mpir.Io.in_fault_returns_0",
+            "Mpir.Io.out_fault_returns_0", "Mpir.Io.out_healthy_counts", "Mpir.Io.fprintf_fault_returns_m1", "Mpir.Io.in_fault_returns_0",
             "Mpir.Io.str_stream_roundtrip_partial"]
 TRUSTED = ["hand-written models lean/Mpir/Model/Io.lean of mpz/{export,import,out_raw,inp_raw,out_str,inp_str}.c, "
            "mpq/{out_str,inp_str}.c, mpf/{out_str,inp_str}.c and the gmp_fprintf path (tied by correspondence on every run)",
